@@ -503,7 +503,7 @@ func (e *Engine) tryReplay(vc *VC, o *Obligation, fres *FuncResult, repo string,
 		approx = true
 	}
 	solver := strings.Split(o.Solver, "+")[0]
-	if approx {
+	if approx || strings.HasPrefix(solver, "z3-new") {
 		solver = "z3-new"
 	}
 	nElems := maxElems
